@@ -79,7 +79,8 @@ inductive ValText where
   deriving Repr, DecidableEq
 
 /-- `Asm()` of the constant types: `$%+d` signed, `$%#0Nx` unsigned with
-N = 2·bytes, `$(%s)` floats, `$%q` strings.  `pr` = strconv.IsPrint on runes ≥ 0x80. -/
+N = 2·bytes, `$(%s)` floats, `$%+q` strings.  `pr` = which runes ≥ 0x80 are printed raw:
+none for `%+q` (`fun _ => false`); strconv.IsPrint for the former `%q`. -/
 def Const.asm (pr : Nat → Bool) : Const → ValText
   | .int ty v => if ty.signed then .num (intDecPlus v) else .num (hexPad (2 * ty.bytes) v.toNat)
   | .float _ _ text => .flt text
